@@ -74,6 +74,13 @@ def pools():
     ff = Var('ff', TFun(A, A))
     hoterms = [Eq(Comb(Lambda(ff, ff(a)), Lambda(u, f(u))), b), Eq(Comb(Comb(Lambda(ff, Lambda(u, ff(ff(u)))), Lambda(u, f(u))), a), b), P(Comb(Lambda(ff, ff(a)), Lambda(u, u))),
                Forall(u, p), Exists(u, p), Forall(x, Eq(y, y)), Forall(u, Implies(p, q)), Comb(Lambda(u, p), a), Eq(Comb(Lambda(x, Lambda(y, x + y)), Nat(1)), g)]
+    # facts with several quantified variables of which only the first is fixed by the premise
+    Q2 = Var('Q2', TFun(A, A, BoolType))
+    Q3 = Var('Q3', TFun(A, A, A, BoolType))
+    v1, v2 = Var('v1', A), Var('v2', A)
+    facts = [Forall(u, Forall(v1, Forall(v2, Implies(P(u), Q3(u, v1, v2))))), Forall(u, Forall(v1, Implies(P(u), Q2(u, v1)))), Forall(u, Forall(v1, Implies(P(v1), Q2(u, v1)))),
+             Forall(u, Forall(v1, Forall(v2, Implies(P(v1), Q3(u, v1, v2)))))]
+    hoterms = hoterms + facts
     terms = terms + hoterms
     names = [n for n in ('conjI', 'conjD1', 'conjD2', 'disjI1', 'disjI2', 'disjE', 'negE', 'trueI', 'falseE', 'exI', 'allE', 'trivial', 'syllogism', 'contradiction', 'iffI', 'eq_sym_eq',
                          'double_neg', 'conj_comm', 'disj_comm', 'de_morgan_thm1', 'de_morgan_thm2', 'not_imp', 'eq_true', 'disj_conv_imp', 'add_0_right', 'add_0_left', 'add_comm', 'mult_comm',
@@ -86,7 +93,7 @@ def pools():
             args.append((n, t))
     args += [[p], [Exists(u, P(u))], [], (names[0], Inst(A=p, B=q)), ('conjI', Inst(A=q)), ('allE', Inst(x=a))]
     base = [Thm(t) for t in terms[:40]] + [Thm(t) for t in hoterms] + [Thm(t, t) for t in (p, q, And(p, q), P(a), Eq(a, b), Not(p), Implies(p, q))] + [Thm(q, p), Thm(P(a), Forall(u, P(u)))]
-    prevs = [[]] + [[t] for t in base]
+    prevs = [[]] + [[t] for t in base] + [[Thm(fc), Thm(P(a))] for fc in facts] + [[Thm(fc, p), Thm(P(a), q)] for fc in facts]
     _P.update({'terms': terms, 'names': names, 'args': args, 'base': base, 'prevs': prevs})
     macs = []
     for name in sorted(theory.global_macros):
